@@ -2,6 +2,7 @@ package lib
 
 import (
 	"fmt"
+	"math"
 
 	"pgregory.net/rapid"
 )
@@ -83,8 +84,8 @@ func (c *GenCtx) GenTyped(t *rapid.T, ty Ty, depth int) *Node {
 	panic("GenTyped: unsupported type")
 }
 
-// listPredicate: predicates that use list values (IN over a list, len, [n]).
-func (c *GenCtx) listPredicate(t *rapid.T) *Node {
+// ListPredicate: predicates that use list values (IN over a list, len, [n]).
+func (c *GenCtx) ListPredicate(t *rapid.T) *Node {
 	switch rapid.IntRange(0, 3).Draw(t, "listPred") {
 	case 0:
 		return InList(Str(c.textLiteral(t)), c.GenListText(t))
@@ -104,7 +105,7 @@ func (c *GenCtx) GenWhere(t *rapid.T, depth int) *Node {
 	w := c.GenBool(t, depth)
 	if rapid.IntRange(0, 5).Draw(t, "whereListPred") == 0 {
 		op := rapid.SampledFrom([]string{"&", "|", "and", "or"}).Draw(t, "whereListOp")
-		w = Bin(op, w, c.listPredicate(t))
+		w = Bin(op, w, c.ListPredicate(t))
 	}
 	return w
 }
@@ -131,6 +132,7 @@ func GenSelect(t *rapid.T, kind StoreKind, pairs []Pair, o SelOpts) *Stmt {
 		} else {
 			n := rapid.IntRange(max(1, o.MinFields), 4).Draw(t, "nfields")
 			seq := 0
+			usedNames := map[Ty][]string{}
 			for i := 0; i < n; i++ {
 				var e *Node
 				switch rapid.IntRange(0, 5).Draw(t, "fieldForm") {
@@ -163,8 +165,17 @@ func GenSelect(t *rapid.T, kind StoreKind, pairs []Pair, o SelOpts) *Stmt {
 						f.Alias = fmt.Sprintf("%s%d", p, seq)
 					}
 				}
+				dup := false
+				if f.Alias != "" && len(usedNames[e.T]) > 0 && rapid.IntRange(0, 9).Draw(t, "repeatName") == 0 {
+					// a later field may repeat the name of an earlier field (of
+					// the same type, so that the name stays as orderable as the
+					// generator assumes): the name keeps referring to the first
+					f.Alias = rapid.SampledFrom(usedNames[e.T]).Draw(t, "repeatedName")
+					dup = true
+				}
 				st.Fields = append(st.Fields, f)
-				if f.Alias != "" {
+				if f.Alias != "" && !dup {
+					usedNames[e.T] = append(usedNames[e.T], f.Alias)
 					c.addAlias(f.Alias, e)
 				}
 			}
@@ -195,6 +206,10 @@ func GenLimit(t *rapid.T, n int) *Limit {
 	if rapid.Bool().Draw(t, "limTwo") {
 		l.Two = true
 		l.Start = rapid.SampledFrom(pool).Draw(t, "limStart")
+	}
+	if rapid.IntRange(0, 9).Draw(t, "limHuge") == 0 {
+		// "everything after row s": counts near the integer limits
+		l.Count = rapid.SampledFrom([]int{math.MaxInt64, math.MaxInt64 - 1, math.MaxInt64 - l.Start, 1 << 32}).Draw(t, "limHugeCount")
 	}
 	return l
 }
@@ -238,6 +253,7 @@ func genOrder(t *rapid.T, st *Stmt) {
 func genAggregateSelect(t *rapid.T, c *GenCtx, st *Stmt, o SelOpts) {
 	ngroup := rapid.IntRange(0, 3).Draw(t, "ngroup")
 	seq := 0
+	var groupRefs []*Node
 	for i := 0; i < ngroup; i++ {
 		var e *Node
 		switch rapid.IntRange(0, 5).Draw(t, "groupForm") {
@@ -258,6 +274,20 @@ func genAggregateSelect(t *rapid.T, c *GenCtx, st *Stmt, o SelOpts) {
 		default:
 			e = Call("str", Call("strlen", Key()))
 		}
+		if o.Aliases && len(groupRefs) > 0 && rapid.IntRange(0, 2).Draw(t, "groupOnName") == 0 {
+			// a group column defined through the name of an earlier one
+			r := rapid.SampledFrom(groupRefs).Draw(t, "groupName").Clone()
+			switch {
+			case r.T == TyText && rapid.Bool().Draw(t, "groupNameText"):
+				e = Call("upper", r)
+			case r.T == TyText:
+				e = Bin("+", r, Str("x"))
+			case rapid.Bool().Draw(t, "groupNameInt"):
+				e = Bin("+", r, Int(1))
+			default:
+				e = Call("str", r)
+			}
+		}
 		if e.K == "key" || e.K == "value" {
 			if rapid.Bool().Draw(t, "groupBare") {
 				// bare key/value: group by key|value, selected as is
@@ -271,14 +301,34 @@ func genAggregateSelect(t *rapid.T, c *GenCtx, st *Stmt, o SelOpts) {
 		st.Fields = append(st.Fields, SelField{E: e, Alias: name})
 		st.Group = append(st.Group, name)
 		c.addAlias(name, e)
+		if e.T == TyText || e.T == TyInt {
+			groupRefs = append(groupRefs, Ref(name, e.T))
+		}
 	}
 	nagg := rapid.IntRange(1, 3).Draw(t, "nagg")
+	var aggRefs []*Node // names of earlier numeric aggregate fields
 	for i := 0; i < nagg; i++ {
 		e := genAggrExpr(t, c)
+		if len(aggRefs) > 0 && e.T != TyText && rapid.IntRange(0, 2).Draw(t, "aggUsesName") == 0 {
+			// an aggregate field built on the name of an earlier one, as an
+			// operand or inside a function argument
+			r := rapid.SampledFrom(aggRefs).Draw(t, "aggName").Clone()
+			if rapid.Bool().Draw(t, "aggNameInCall") {
+				if r.T == TyInt {
+					r = Call("int", r)
+				} else {
+					r = Call("float", r)
+				}
+			}
+			e = Bin(rapid.SampledFrom([]string{"+", "-", "*"}).Draw(t, "aggNameOp"), r, e)
+		}
 		seq++
 		f := SelField{E: e}
 		if rapid.Bool().Draw(t, "aggAliased") {
 			f.Alias = fmt.Sprintf("a%d", seq)
+			if e.T == TyInt || e.T == TyFloat {
+				aggRefs = append(aggRefs, Ref(f.Alias, e.T))
+			}
 		}
 		st.Fields = append(st.Fields, f)
 	}
@@ -334,6 +384,11 @@ func genAggrCall(t *rapid.T, c *GenCtx) *Node {
 	default:
 		if c.Exotic && rapid.Bool().Draw(t, "quantile") {
 			return Call("quantile", aggrArg(t, c), Float(rapid.SampledFrom([]string{"0.5", "0.9", "0.0", "1.0"}).Draw(t, "quantileP")))
+		}
+		if c.Exotic && rapid.IntRange(0, 3).Draw(t, "quantileOdd") == 0 {
+			// percents outside [0, 1], written as constant expressions
+			p := rapid.SampledFrom([]*Node{Bin("-", Int(0), Float("0.5")), Bin("-", Float("0.25"), Int(1)), Float("1.5"), Int(2), Bin("/", Float("1.0"), Int(3)), Bin("-", Int(0), Int(1))}).Draw(t, "quantileOddP")
+			return Call("quantile", aggrArg(t, c), p.Clone())
 		}
 		arg := rapid.SampledFrom([]*Node{Key(), Value(), Call("strlen", Key())}).Draw(t, "arrayaggArg")
 		return Call("json_arrayagg", arg)
